@@ -3,6 +3,7 @@ package props
 import (
 	"go/format"
 	"strings"
+	"verif/internal/gen"
 )
 
 // layoutZoo is a collection of small hand-written gofmt-canonical sources with comment and
@@ -10,6 +11,14 @@ import (
 // at run time (non-canonical entries are skipped and counted), so the zoo never weakens an oracle.
 func layoutZoo() map[string]string {
 	m := baseZoo()
+	for k, v := range m {
+		// every entry takes part in its gofmt form (a fixed point of gofmt)
+		if g, ok := gen.Canonicalise([]byte(v)); ok {
+			m[k] = string(g)
+		} else {
+			delete(m, k)
+		}
+	}
 	// the construct snippets, canonicalised, take part as well
 	for k, v := range extraSnippets() {
 		if strings.HasPrefix(k, "bad:") {
@@ -266,6 +275,79 @@ func F[
 ](x T, y U) {
 	_ = G[T, int]{} // inst
 }
+`,
+		"label-at-end": `package p
+
+func f(x int) {
+	if x > 0 {
+		goto done
+	}
+	for {
+		break
+	}
+done:
+	// nothing to do
+}
+
+func g() {
+	{
+		goto end
+	end:
+		// inner label at the end of a block
+	}
+L:
+}
+
+func h() {
+	goto out
+out:
+	/* block comment after the last label */
+}
+`,
+		"empty-bodies-with-comments": `package p
+
+import ()
+
+type E struct {
+	// nothing in this struct
+}
+
+type I interface {
+	// nothing in this interface
+}
+
+func f() {
+	// nothing in this body
+}
+
+func g() {
+	for {
+		// nothing in this loop
+	}
+	switch {
+	// nothing in this switch
+	}
+	select {
+	// nothing in this select
+	}
+	if true {
+		// nothing in this branch
+	} else {
+		// nothing in this one either
+	}
+	_ = []int{
+		// nothing in this literal
+	}
+	h(
+	// nothing in this call
+	)
+}
+
+var (
+	// nothing in this group
+)
+
+const ()
 `,
 		"rare-constructs": `package p
 
